@@ -103,6 +103,8 @@ def run(tier, seed, pid=PID):
     clipool = [c for c in cases if c['rule']['freq'] in ('YEARLY', 'MONTHLY', 'WEEKLY', 'DAILY') and len(c['rule']['H'] or [0]) * len(c['rule']['M'] or [0]) * len(c['rule']['S'] or [0]) <= 12]
     crecs = cli_cases(B, wd, rnd.sample(clipool, min(ncli, len(clipool))), rnd, max(4, ncli // 25))
     allrecs = recs + crecs
+    # the families differ a lot in what their evaluation costs (the combinations beyond the catalogue most): mixed, every chunk gets its share
+    random.Random(seed + 17).shuffle(allrecs)
     trace = f'{wd}/rrule.ndjson'
     with open(trace, 'w') as f:
         for r in allrecs: f.write(json.dumps(r) + '\n')
